@@ -54,7 +54,8 @@ VARIANTS = {
     "fuzz": dict(cc="clang", cflags=ASAN_FLAGS + ["-fsanitize=fuzzer-no-link"],
                  ld=ASAN_FLAGS + ["-fsanitize=fuzzer-no-link"], tools=False),
     # controlled scheduler for the thread pool + block processor
-    "sched": dict(cc="clang", cflags=ASAN_FLAGS, ld=ASAN_FLAGS, tools=False,
+    # (no sanitizer: every explored schedule is a fork(), which is very slow under ASan)
+    "sched": dict(cc="clang", cflags=["-O1", "-g"], ld=[], tools=False,
                   per_file={"threadpool.c": ["-include", os.path.join(VERIF, "src/vsched_shim.h")]},
                   extra_dep=["src/vsched_shim.h"]),
 }
